@@ -54,6 +54,7 @@ def main():
         log = hs.LOG
         res['paths_logged'] = len(log)
         res['fails'] = hs.FAILS[:5]
+        res['known_hits'] = hs.KNOWN_HITS
         keys = set()
         nontrivial = set()
         for r in log:
